@@ -3,6 +3,8 @@ package checks
 import (
 	"encoding/json"
 	"fmt"
+	"os"
+	"path/filepath"
 
 	"pgregory.net/rapid"
 
@@ -26,8 +28,9 @@ type runtimeCheck struct {
 	Assumptions       []string
 	Prefix            string
 	Extra             map[string]string
-	Filter            func(s *schema.Schema, avoid map[string]string) bool // rejection filter on drawn schemas
-	BrokenIsViolation bool                                                 // packages that do not build/vet are violations of this property
+	Filter            func(s *schema.Schema, avoid map[string]string) bool                              // rejection filter on drawn schemas
+	BrokenIsViolation bool                                                                              // packages that do not build/vet are violations of this property
+	Prepare           func(c *core.Ctx, batch int, schemas []*schema.Schema) (map[string]string, error) // extra inner config
 }
 
 func (rc *runtimeCheck) run(c *core.Ctx) error {
@@ -66,8 +69,16 @@ func (rc *runtimeCheck) run(c *core.Ctx) error {
 		for _, s := range schemas {
 			countAvoided(c, s, avoid)
 		}
+		extra := rc.Extra
+		if rc.Prepare != nil {
+			ex, err := rc.Prepare(c, b, schemas)
+			if err != nil {
+				return err
+			}
+			extra = ex
+		}
 		spec := &batchSpec{Name: fmt.Sprintf("%s-%d", rc.ID, b), Variant: variant, Schemas: schemas, Param: rc.Param, Race: rc.Race,
-			Checks: rc.Inner, Cases: cases, Extra: rc.Extra}
+			Checks: rc.Inner, Cases: cases, Extra: extra}
 		out, err := runBatch(c, spec)
 		if err != nil {
 			if ic, ok := err.(*innerCrash); ok {
@@ -89,7 +100,9 @@ func (rc *runtimeCheck) run(c *core.Ctx) error {
 			c.Violation(fmt.Sprintf("data-race-%d", i), map[string]any{"property": rc.ID, "kind": "race", "report": r, "schemas": schemas},
 				"the race detector reported a data race in generated code:\n"+trunc(r, 2500))
 		}
-		reportInner(c, spec, out, "")
+		if err := reportInner(c, spec, out, ""); err != nil {
+			return err
+		}
 	}
 	return nil
 }
@@ -149,8 +162,38 @@ func init() {
 		Batches: [2]int{1, 10}, PerBatch: [2]int{48, 64}, Cases: [2]int{60, 300},
 		Rule:        "cases = (schema generated with generate_mock=true: response fields of the kinds/cardinalities the mock generator handles today plus every kind it skips, nested and map fields, several services, field_examples incl. unparsable entries) x RPC x valid request (JSON or binary) x repeated invocations. Oracle: the package incl. *_http_mock.pb.go builds and vets; the generated server backed by NewMock<Service>Server answers 200; the body decodes into the response type and is the documented JSON form of it; a field declaring examples holds one of the parsable ones. Non-trivial = response type with fields; distinct by (request, response body).",
 		Assumptions: append([]string{"while KF-C20-1 is open, schemas whose response types use field shapes the mock generator cannot compile are rejected by the generator filter (counted in classes) and demonstrated by the pinned replay", "validation of mock responses against the OpenAPI response schema is performed by C06's machinery on the same kind of bodies, not repeated here"}, commonAssumptions...)})
+	registerRuntime(&runtimeCheck{ID: "C06", Profile: schema.ProfileContract, Inner: []string{"c06"}, Prefix: "g", Prepare: prepareOpenAPI,
+		Batches: [2]int{1, 10}, PerBatch: [2]int{48, 64}, Cases: [2]int{100, 400},
+		Rule:        "cases = (schema from the contract profile: codec annotations, URL parameters of every kind, headers) x RPC x (request value, response value) x mode {success, handler error -> default response, malformed body -> 400}; the Go client's request body and the Go server's response body are captured on the wire together with the path, query and header values as sent. Oracle: Python jsonschema (Draft 2020-12, $refs resolved in the service's document) against the operation's requestBody / response / parameter schemas, parameters deserialised per the simple/form defaults, plus a walker that reports wire properties no applicable subschema describes; converse: the JSON form of default request/response messages satisfies their component schemas. Non-trivial = annotated request/response type or an error response; distinct by wire traffic.",
+		Assumptions: append([]string{"format is an annotation in 2020-12 and is not asserted", "the TypeScript client's request bodies are validated by C08's runs against the same schemas, not here"}, commonAssumptions...)})
 	registerRuntime(&runtimeCheck{ID: "C01", Profile: schema.ProfileTransport, Inner: []string{"c01"}, Prefix: "t",
 		Batches: [2]int{1, 10}, PerBatch: [2]int{64, 64}, Cases: [2]int{150, 500},
 		Rule:        "cases = (schema from the transport profile: verbs, base paths, 0-3 path variables of every URL kind, query parameters, body fields of every kind/cardinality, JSON-mapping annotations) x RPC x (request value incl. reserved URL characters, non-ASCII, numeric extremes; response value) x content type {application/json, application/x-protobuf, application/octet-stream} set per client or per call x base URL with/without trailing slash. The generated Go client calls the generated Go server through an in-memory transport. Oracle: exactly one handler call of the same RPC, norm(sent)==seen, norm(returned)==received (norm only for JSON). Non-trivial = URL-bound value with reserved/non-ASCII characters or >= 9 digits, or a non-JSON content type, or an annotated body; distinct by (RPC, content type, request, response).",
 		Assumptions: append([]string{"required query parameters are drawn non-zero: the client documents zero-value elision"}, commonAssumptions...)})
+}
+
+// prepareOpenAPI emits the JSON OpenAPI documents of every schema of a batch into a directory the
+// inner engine reads, and tells it where the jsonschema oracle script lives.
+func prepareOpenAPI(c *core.Ctx, batch int, schemas []*schema.Schema) (map[string]string, error) {
+	dir := filepath.Join(c.Scratch, fmt.Sprintf("openapi-%d", batch))
+	for _, s := range schemas {
+		_, raw, msg, err := openapiDocs(c, s, "json")
+		if err != nil {
+			return nil, err
+		}
+		if msg != "" {
+			fmt.Printf("note: schema %s: %s (left to C12/C16)\n", s.ID, msg)
+			continue
+		}
+		for name, content := range raw {
+			p := filepath.Join(dir, s.ID, name)
+			if err := os.MkdirAll(filepath.Dir(p), 0o755); err != nil {
+				return nil, err
+			}
+			if err := os.WriteFile(p, []byte(content), 0o644); err != nil {
+				return nil, err
+			}
+		}
+	}
+	return map[string]string{"openapi_dir": dir, "validator_script": filepath.Join(core.Root(), "py", "validate.py")}, nil
 }
